@@ -42,8 +42,10 @@ fn ctor(d: Duration, s: TimeScale) -> Epoch {
     }
 }
 
+/// Representable: "no bound is hit" as long as the reading, its TAI pivot and the result all are (the bounds
+/// themselves included: a count of exactly MAX or MIN is a value like any other when nothing saturated to get there).
 fn in_bounds(v: i128) -> bool {
-    v > MIN_NS + 5 * NS_D && v < MAX_NS - 5 * NS_D
+    (MIN_NS..=MAX_NS).contains(&v)
 }
 
 pub fn check(rep: &mut Rep, d: i128, s1: TimeScale, x: i128) {
@@ -96,8 +98,11 @@ pub fn check(rep: &mut Rep, d: i128, s1: TimeScale, x: i128) {
     }
     for s2 in UNIFORM {
         let want = t - zero_tai_ns(s2);
-        if want <= MIN_NS + 5 * NS_D || want >= MAX_NS - 5 * NS_D {
+        if !in_bounds(want) || !in_bounds(t) {
             continue;
+        }
+        if want == MAX_NS || want == MIN_NS || t == MAX_NS || t == MIN_NS || d == MAX_NS || d == MIN_NS {
+            rep.class("conv/exactly-at-a-bound");
         }
         if s1 != s2 {
             rep.class("conv/cross-scale");
@@ -135,7 +140,7 @@ pub fn check(rep: &mut Rep, d: i128, s1: TimeScale, x: i128) {
                     rep.fail("convert/since-j1900", None, || format!("({}, {:?}).to_duration_since_j1900() = {} want {}", d, s1, count_d(j1900), t));
                 }
                 let wp = want + x;
-                if wp > MIN_NS + 5 * NS_D && wp < MAX_NS - 5 * NS_D && d + x > MIN_NS + 5 * NS_D && d + x < MAX_NS - 5 * NS_D {
+                if in_bounds(wp) && in_bounds(d + x) && in_bounds(t + x) {
                     if count_d(plus.duration) != wp || count_d(plus2.duration) != wp || plus.time_scale != s2 {
                         rep.fail("convert/commutes-with-add", None, || format!("{} with +{}: (e+x).to = {} ; e.to+x = {} ; want {}", det(), x, count_d(plus.duration), count_d(plus2.duration), wp));
                     }
@@ -226,6 +231,40 @@ pub fn run(cfg: &Cfg, rep: &mut Rep) {
             }
         }
     }
+    // readings whose own count, TAI pivot or converted count sits exactly on / next to a duration bound
+    for s in UNIFORM {
+        for s2 in UNIFORM {
+            for b in [MAX_NS, MIN_NS] {
+                for k in [0i128, 1, 2, NS_S, 20 * NS_S, 33 * NS_S, NS_D] {
+                    for d in [b, b - zero_tai_ns(s), b - zero_tai_ns(s) + zero_tai_ns(s2)] {
+                        let d = if b > 0 { d - k } else { d + k };
+                        i += 1;
+                        if i % n == sh && in_bounds(d) {
+                            check(rep, d, s, if b > 0 { -NS_S } else { NS_S });
+                            check(rep, d, s, 0);
+                        }
+                    }
+                }
+            }
+        }
+    }
+    // the integer nanosecond counters of the four GNSS scales are conversions too (C20 owns their error clause; the
+    // value clause - zero point and offset of each scale - is C05's): full u64 range in, boundaries of one century out
+    for (gi, g) in [TimeScale::GPST, TimeScale::QZSST, TimeScale::GST, TimeScale::BDT].into_iter().enumerate() {
+        for b in [0u64, 1, NPC as u64 - 1, NPC as u64, NPC as u64 + 1, 1 << 63, (1 << 63) - 1, u64::MAX, u64::MAX - 1, 2 * NPC as u64] {
+            i += 1;
+            if i % n == sh {
+                super::c20::check_ctr_from(rep, b, g);
+                for s in UNIFORM {
+                    // the same instant held in another uniform scale
+                    let c = b as i128 + zero_tai_ns(g) - zero_tai_ns(s);
+                    super::c20::check_ctr_of(rep, c, s, g);
+                    super::c20::check_ctr_of(rep, c - 1, s, g);
+                }
+            }
+        }
+        let _ = gi;
+    }
     let mut r = Rng::new(cfg.seed, 0x0500 + sh as u64);
     let nrand = cfg.budget(1_500_000);
     let lats: Vec<Vec<i128>> = UNIFORM.iter().map(|s| gen::reading_lattice(*s, &leap)).collect();
@@ -241,5 +280,14 @@ pub fn run(cfg: &Cfg, rep: &mut Rep) {
         check(rep, d, s, x);
         let sc = *r.pick(&[TimeScale::TAI, TimeScale::TT, TimeScale::UTC, TimeScale::GPST, TimeScale::QZSST, TimeScale::GST, TimeScale::BDT]);
         check_float_ctors(rep, r.range_i64(-9_007_199, 9_007_199), sc);
+        if r.chance(1, 8) {
+            let g = *r.pick(&[TimeScale::GPST, TimeScale::QZSST, TimeScale::GST, TimeScale::BDT]);
+            let nn = match r.below(3) {
+                0 => r.u64(),
+                1 => r.below(NPC as u64),
+                _ => (1u64 << 63).wrapping_add(r.below(1 << 40)).wrapping_sub(1 << 39),
+            };
+            super::c20::check_ctr_from(rep, nn, g);
+        }
     }
 }
